@@ -1517,9 +1517,14 @@ fn oracle_c13(o: &Outcome) -> (Verdict, bool, Vec<(String, u64)>) {
                             if cum.map(|c| serial_lt(c, s.cum_tsn)).unwrap_or(true) {
                                 cum = Some(s.cum_tsn);
                             }
-                            for (gs, ge) in &s.gaps {
-                                for off in *gs..=*ge {
-                                    gap_acked.insert(s.cum_tsn.wrapping_add(off as u32));
+                            // RFC 4960 6.2.1: a SACK whose cumulative TSN is behind the sender's
+                            // cumulative ack point is an out-of-order SACK and is dropped as a whole -
+                            // its gap blocks then never reach the sender's bookkeeping
+                            if !stale {
+                                for (gs, ge) in &s.gaps {
+                                    for off in *gs..=*ge {
+                                        gap_acked.insert(s.cum_tsn.wrapping_add(off as u32));
+                                    }
                                 }
                             }
                         }
@@ -1579,11 +1584,17 @@ fn oracle_c13(o: &Outcome) -> (Verdict, bool, Vec<(String, u64)>) {
                         if sent.contains(&d.tsn) {
                             // retransmission
                             if acked {
+                                if std::env::var("RTCMON_DEBUG").is_ok() {
+                                    for e in tap[i.saturating_sub(30)..=i].iter() {
+                                        eprintln!("   tap {} {} {}", e.t_us, if e.tx { "TX" } else { "RX" }, e.pkt.summary().chars().take(170).collect::<String>());
+                                    }
+                                }
                                 return (
                                     Verdict::violated(
                                         "tap:retransmit_after_ack",
                                         format!("side {side} retransmitted TSN {} after a SACK covering it had been handed in (cum={:?})", d.tsn, cum),
-                                        json!({"tsn": d.tsn, "cum": cum, "tap_index": i, "plan": o.scn.plan.to_json()}),
+                                        json!({"tsn": d.tsn, "cum": cum, "tap_index": i, "plan": o.scn.plan.to_json(),
+                                               "tap_before": tap[i.saturating_sub(24)..=i].iter().map(|e| format!("{} {} {}", e.t_us, if e.tx { "TX" } else { "RX" }, e.pkt.summary().chars().take(160).collect::<String>())).collect::<Vec<_>>()}),
                                     ),
                                     true,
                                     counters,
@@ -2236,6 +2247,30 @@ fn gen_c13(args: &Args) -> Vec<Scenario> {
             s.sends.push(SendSpec { side: 'b', ch: 1, sender: 0, n: 40, mode: "small".into(), seed: rng.next_u64(), gap_us: 0 });
             out.push(s);
         }
+    }
+    // bulk transfers that straddle the 32-bit TSN wrap under loss: retransmission timers, fast
+    // retransmit and the cumulative-ack sweep all work on a queue whose numeric order is not its
+    // serial order
+    for i in 0..args.tier.pick(16, 96) {
+        let k = [2u32, 7, 40, 300][(i % 4) as usize];
+        let mut s = default_scn("c13", &format!("tsnwrap-bulk:k={k}#{i}"));
+        let t = 0u32.wrapping_sub(k);
+        if i % 2 == 0 {
+            s.force_tsn_a = Some(t);
+        } else {
+            s.force_tsn_b = Some(t);
+        }
+        let mut p = random_plan(&mut rng, false);
+        if let Some(rp) = p.random.as_mut() {
+            rp.loss_pm = *rng.pick(&[100u32, 200, 300]);
+            rp.packets = 600;
+        }
+        s.plan = p;
+        s.rto_ms = (100, 50, 300);
+        for side in ['a', 'b'] {
+            s.sends.push(SendSpec { side, ch: 1, sender: 0, n: 120, mode: "small".into(), seed: rng.next_u64(), gap_us: *rng.pick(&[0u64, 300]) });
+        }
+        out.push(s);
     }
     // a sample of the C01 / C12 workloads and fault histories
     let mut c01 = gen_c01(args);
